@@ -160,6 +160,7 @@ pub fn shape(t: &Value) -> String {
     match t[0].as_str().unwrap_or("?") {
         "rflat" => format!("r:{}", s(1)),
         "rchain" => format!("rc({},{})", shape(&t[1]), shape(&t[2])),
+        "rref" => format!("&{}", shape(&t[1])),
         "flat" => format!("F:{}", s(1)),
         "parsed" => "P".into(),
         "chain" => format!("C({},{})", shape(&t[1]), shape(&t[2])),
@@ -314,6 +315,24 @@ pub fn with_abs<V: AbsVisitor>(t: &Value, v: V) -> Result<V::Out, String> {
         "&C(r:vec,F:vec)" => v.visit(&|t: &Value| leak(c(r_vec(&t[1][1]).chain(f_vec(&t[1][2]))))),
         "&&F:vec" => v.visit(&|t: &Value| leak(leak(f_vec(&t[1][1])))),
         other => return Err(format!("unsupported carrier shape {other}")),
+    })
+}
+
+/// The same for the few shapes the names inside the data of a *record* are
+/// given (owner shape x data shape is a product of instantiations).
+pub fn with_abs_few<V: AbsVisitor>(t: &Value, v: V) -> Result<V::Out, String> {
+    Ok(match shape(t).as_str() {
+        "F:vec" => v.visit(&f_vec),
+        "P" => v.visit(&parsed),
+        "C(r:vec,F:vec)" => v.visit(&|t: &Value| c(r_vec(&t[1]).chain(f_vec(&t[2])))),
+        "C(r:vec,C(r:vec,F:vec))" => v.visit(&|t: &Value| {
+            c(r_vec(&t[1]).chain(c(r_vec(&t[2][1]).chain(f_vec(&t[2][2])))))
+        }),
+        "U:vec(F:vec)" => v.visit(&|t: &Value| c(u_vec(t).chain(f_vec(&t[4])))),
+        "&C(r:vec,F:vec)" => {
+            v.visit(&|t: &Value| leak(c(r_vec(&t[1][1]).chain(f_vec(&t[1][2])))))
+        }
+        other => return Err(format!("unsupported carrier shape {other} for record data")),
     })
 }
 
@@ -736,16 +755,13 @@ impl AbsVisitor for RdVisitor<'_, '_> {
             None => return json!({"bad_case": "record data without names or not constructible"}),
         };
         rd_ops(&ca, self.da, self.db, &format!("AllRecordData over {what}"), &mut ag);
-        // through references to the carriers
-        if let Some(cr) = rebuild(self.da, &mut names.iter()) {
-            rd_ops(&cr, self.da, self.db, &format!("AllRecordData over &{what}"), &mut ag);
-        }
         if let Some(cz) = rebuild_zone(self.da, &mut names.iter().cloned()) {
             let w = format!("ZoneRecordData over {what}");
             ag.put("compose", json!(rd_compose(&cz)), &w);
             ag.put("canon_wire", json!(rd_canon(&cz)), &w);
         }
-        if self.eqfree && ag.vals.get("eq") == Some(&json!(ag.vals.get("canon") == Some(&json!(0)))) {
+        if self.eqfree {
+            // == of data whose character strings differ only in case is not pinned
             ag.vals.insert("eq", json!("free"));
         }
         ag.finish()
@@ -830,7 +846,7 @@ impl AbsVisitor for RecOuter<'_, '_> {
             return rec_ops(owner, d, &self);
         }
         let first = self.cs[0].clone();
-        match with_abs(&first, RecInner { owner, o: self }) {
+        match with_abs_few(&first, RecInner { owner, o: self }) {
             Ok(v) => v,
             Err(e) => json!({"bad_case": e}),
         }
@@ -1014,6 +1030,146 @@ pub fn names_of_rdata(d: &AllData<'_>) -> Vec<Vec<Vec<u8>>> {
         _ => {}
     }
     out
+}
+
+//----------------------------------------------------------------------------
+// relative carriers (the left parts of chains) on their own
+
+pub trait RelVisitor {
+    type Out;
+    fn visit<N>(self, mk: &dyn Fn(&Value) -> N) -> Self::Out
+    where
+        N: ToRelativeName + Clone + 'static;
+}
+pub fn with_rel<V: RelVisitor>(t: &Value, v: V) -> Result<V::Out, String> {
+    Ok(match shape(t).as_str() {
+        "r:vec" => v.visit(&r_vec),
+        "r:bytes" => v.visit(&r_bytes),
+        "r:slice" => v.visit(&r_slice),
+        "rc(r:vec,r:vec)" => v.visit(&|t: &Value| c(r_vec(&t[1]).chain(r_vec(&t[2])))),
+        "rc(r:vec,r:bytes)" => v.visit(&|t: &Value| c(r_vec(&t[1]).chain(r_bytes(&t[2])))),
+        "rc(rc(r:vec,r:vec),r:vec)" => v.visit(&|t: &Value| {
+            c(c(r_vec(&t[1][1]).chain(r_vec(&t[1][2]))).chain(r_vec(&t[2])))
+        }),
+        "&r:vec" => v.visit(&|t: &Value| leak(r_vec(&t[1]))),
+        "&rc(r:vec,r:vec)" => {
+            v.visit(&|t: &Value| leak(c(r_vec(&t[1][1]).chain(r_vec(&t[1][2])))))
+        }
+        other => return Err(format!("unsupported relative carrier shape {other}")),
+    })
+}
+
+fn rel_compose<N: ToRelativeName + ?Sized>(n: &N, canon: bool) -> Vec<u8> {
+    let mut v = vec![];
+    if canon {
+        n.compose_canonical(&mut v).unwrap();
+    } else {
+        n.compose(&mut v).unwrap();
+    }
+    v
+}
+
+fn unary_rel<N: ToRelativeName + Clone>(n: &N, what: &str, ag: &mut Agree) {
+    ag.put("compose", json!(rel_compose(n, false)), &format!("{what}: compose"));
+    ag.put(
+        "compose",
+        json!(n.to_relative_name::<Vec<u8>>().as_slice()),
+        &format!("{what}: to_relative_name"),
+    );
+    ag.put("compose", json!(ToRelativeName::to_vec(n).as_slice()), &format!("{what}: to_vec"));
+    ag.put("compose", json!(ToRelativeName::to_bytes(n).as_slice()), &format!("{what}: to_bytes"));
+    ag.put("compose", json!(ToRelativeName::to_cow(n).as_slice()), &format!("{what}: to_cow"));
+    match n.try_to_relative_name::<Array<255>>() {
+        Ok(a) => ag.put("compose", json!(a.as_slice()), &format!("{what}: try_to_relative_name<Array>")),
+        Err(_) => ag.issues.push(format!("{what}: try_to_relative_name<Array<255>> failed")),
+    }
+    if let Some(s) = ToRelativeName::as_flat_slice(n) {
+        ag.put("compose", json!(s), &format!("{what}: as_flat_slice"));
+    }
+    ag.put("compose", json!(rel_compose(&n, false)), &format!("{what}: (&n).compose"));
+    ag.put("canon", json!(rel_compose(n, true)), &format!("{what}: compose_canonical"));
+    ag.put(
+        "canon",
+        json!(n.to_canonical_relative_name::<Vec<u8>>().as_slice()),
+        &format!("{what}: to_canonical_relative_name"),
+    );
+    ag.put("canon", json!(rel_compose(&n, true)), &format!("{what}: (&n).compose_canonical"));
+    ag.put("len", json!(n.compose_len()), &format!("{what}: compose_len"));
+    let fwd: Vec<Vec<u8>> = n.iter_labels().map(|l| l.as_slice().to_vec()).collect();
+    let mut back: Vec<Vec<u8>> = n.iter_labels().rev().map(|l| l.as_slice().to_vec()).collect();
+    back.reverse();
+    ag.put("labels", json!(fwd), &format!("{what}: iter_labels"));
+    ag.put("labels", json!(back), &format!("{what}: iter_labels reversed"));
+    ag.put("is_empty", json!(n.is_empty()), &format!("{what}: is_empty"));
+    // made absolute
+    let abs = n.clone().chain_root();
+    ag.put("with_root", json!(compose_of(&abs)), &format!("{what}: chain_root().compose"));
+    if canon_of(&abs) != [&rel_compose(n, true)[..], &[0]].concat() {
+        ag.issues.push(format!("{what}: chain_root().compose_canonical is not compose_canonical + root"));
+    }
+    if let Ok(ch) = n.clone().chain(Name::root_vec()) {
+        ag.put("with_root", json!(compose_of(&ch)), &format!("{what}: chain(root).compose"));
+    }
+    // against the flat forms of the same relative name
+    let wire = rel_compose(n, false);
+    if let Ok(flat) = RelativeName::from_octets(wire.clone()) {
+        let lower: RelativeName<Vec<u8>> =
+            RelativeName::from_octets(wire.iter().map(|b| b.to_ascii_lowercase()).collect()).unwrap();
+        let upper: RelativeName<Vec<u8>> =
+            RelativeName::from_octets(wire.iter().map(|b| b.to_ascii_uppercase()).collect()).unwrap();
+        for (o, w) in [(&flat, "same spelling"), (&lower, "lower case"), (&upper, "upper case")] {
+            if !ToRelativeName::name_eq(n, o) || !ToRelativeName::name_eq(o, n) {
+                ag.issues.push(format!("{what}: not name_eq to the flat relative name ({w})"));
+            }
+            if ToRelativeName::name_cmp(n, o) != Ordering::Equal
+                || ToRelativeName::name_cmp(o, n) != Ordering::Equal
+            {
+                ag.issues.push(format!("{what}: name_cmp with the flat relative name ({w}) not Equal"));
+            }
+        }
+        if rel_compose(&lower, true) != rel_compose(n, true) {
+            ag.issues.push(format!("{what}: canonical form differs from that of the flat lower-case name"));
+        }
+    } else {
+        ag.issues.push(format!("{what}: composes to octets that are no relative name"));
+    }
+}
+struct UnaryRel<'a> {
+    t: &'a Value,
+}
+impl RelVisitor for UnaryRel<'_> {
+    type Out = Value;
+    fn visit<N: ToRelativeName + Clone + 'static>(self, mk: &dyn Fn(&Value) -> N) -> Value {
+        let n = mk(self.t);
+        let mut ag = Agree::new();
+        unary_rel(&n, &shape(self.t), &mut ag);
+        ag.finish()
+    }
+}
+pub fn observe_rel_carrier(t: &Value) -> Value {
+    match with_rel(t, UnaryRel { t }) {
+        Ok(v) => v,
+        Err(e) => json!({"bad_case": e}),
+    }
+}
+/// a random relative carrier term with these labels
+pub fn random_rel_carrier(rng: &mut Rng, labels: &[Vec<u8>]) -> Value {
+    let n = labels.len();
+    let (mut j, mut k) = (rng.below(n as u64 + 1) as usize, rng.below(n as u64 + 1) as usize);
+    if j > k {
+        std::mem::swap(&mut j, &mut k);
+    }
+    let rf = |o: &str, l: &[Vec<u8>]| json!(["rflat", o, l]);
+    match rng.below(8) {
+        0 => rf("vec", labels),
+        1 => rf("bytes", labels),
+        2 => rf("slice", labels),
+        3 => json!(["rchain", rf("vec", &labels[..k]), rf("vec", &labels[k..])]),
+        4 => json!(["rchain", rf("vec", &labels[..k]), rf("bytes", &labels[k..])]),
+        5 => json!(["rchain", ["rchain", rf("vec", &labels[..j]), rf("vec", &labels[j..k])], rf("vec", &labels[k..])]),
+        6 => json!(["rref", rf("vec", labels)]),
+        _ => json!(["rref", ["rchain", rf("vec", &labels[..k]), rf("vec", &labels[k..])]]),
+    }
 }
 
 #[allow(unused)]
